@@ -75,6 +75,7 @@ SliceCases == {[fam |-> "slice", x |-> v, e |-> FA("slice", X, a)] : v \in Slice
 DefaultSubjects == {Null, VS(<<>>), VS(<<97>>), VS(<<32>>), VI(5), VI(-1), VB(TRUE), VL(<<>>), VL(<<VI(0)>>), VM(<<>>, <<>>),
                     VM(<<VS(<<107>>)>>, <<VI(1)>>)}
 DefaultCases == {[fam |-> "default", x |-> v, e |-> FA("default", X, <<LS(<<100>>)>>)] : v \in DefaultSubjects}
+
                 \cup {[fam |-> "default", x |-> Null, e |-> FA("default", Var("undefinedvar"), <<LI(3)>>)]}
 \* merge on maps (later maps win), keys, first / last / loop count (model maps carry their keys in the order they are walked: sorted)
 MapCases == {[fam |-> "map", x |-> m, e |-> e] : m \in Maps,
@@ -100,6 +101,31 @@ NumFmtSubjects == Eighths \cup {VD(k * 25, 2) : k \in {3996, 3997, 3998, 3999, 4
 NumFmtArgs == {<<>>, <<LI(0)>>, <<LI(1)>>, <<LI(2)>>, <<LI(3)>>, <<LI(2), LS(<<44>>)>>, <<LI(1), LS(<<44>>), LS(<<46>>)>>,
                <<LI(2), LS(<<46>>), LS(<<>>)>>, <<LI(0), LS(<<46>>), LS(<<32>>)>>, <<LI(2), LS(<<100, 112>>), LS(<<116, 115>>)>>}
 NumFmtCases == {[fam |-> "numfmt", x |-> d, e |-> FA("number_format", X, a)] : d \in NumFmtSubjects, a \in NumFmtArgs}
+\* numbers of every Go kind: sort orders them by value; whether zero is "empty" for default is not stated, but it cannot
+\* depend on the Go type that carries the zero (all kinds must agree with each other)
+NumKinds == {"i8", "i64", "u16", "u64", "f32", "def"}
+KindLists == {VL(<<VN(VI(3), k), VN(VI(20), k), VN(VI(1), k)>>) : k \in NumKinds}
+             \cup {VLg(<<VI(3), VI(20), VI(1)>>, g) : g \in {"i64s", "f32s", "ints"}} \cup {VL(<<VI(3), VI(20), VI(1)>>), VL(<<VI(3), VN(VI(20), "u16"), VN(VI(1), "i8")>>)}
+Zeros == {VI(0), VD(0, 0), VN(VD(0, 0), "def")} \cup {VN(VI(0), k) : k \in NumKinds}
+KindCases == {[fam |-> "kinds", what |-> w] : w \in {"sort", "zero", "zerocomputed"}}
+KindCaseOf(c) ==
+    IF c.what = "sort" THEN
+        [prop |-> "C19", key |-> ToJson(c), tags |-> {"fam:kinds", "f:sort"}, entry |-> "main", ctx |-> EmptyFn,
+         runs |-> {[label |-> ToJson(v), tp |-> ("main" :> Source(<<PrintS(FA("join", F("sort", X), <<LS(<<44>>)>>)), Text(<<124>>), PrintS(F("first", F("sort", X))),
+                                                                     Text(<<124>>), PrintS(F("last", F("sort", X)))>>, LMin)),
+                    xcalls |-> [id \in {} |-> 0], ctx |-> ("x" :> v)] : v \in KindLists},
+         expect |-> [ok |-> TRUE, out |-> <<49, 44, 51, 44, 50, 48, 124, 49, 124, 50, 48>>, err |-> "", calls |-> [id \in {} |-> 0]]]
+    ELSE
+        [prop |-> "C19", key |-> ToJson(c), tags |-> {"fam:kinds", "f:default"}, entry |-> "main", ctx |-> EmptyFn, rel |-> "same",
+         runs |-> IF c.what = "zero"
+                  THEN {[label |-> ToJson(v), tp |-> ("main" :> Source(<<PrintS(FA("default", X, <<LS(<<100>>)>>)), Text(<<124>>), IfElse(FA("default", X, <<LB(FALSE)>>), <<Text(<<84>>)>>, <<Text(<<70>>)>>),
+                                                                        Text(<<124>>), IfElse(Test(X, "empty", <<>>, FALSE), <<Text(<<69>>)>>, <<Text(<<78>>)>>)>>, LMin)),
+                          xcalls |-> [id \in {} |-> 0], ctx |-> ("x" :> v)] : v \in Zeros}
+                  ELSE {[label |-> "literal", tp |-> ("main" :> Source(<<PrintS(FA("default", LI(0), <<LS(<<100>>)>>))>>, LMin)), xcalls |-> [id \in {} |-> 0], ctx |-> ("x" :> VI(4))],
+                         [label |-> "x-x", tp |-> ("main" :> Source(<<PrintS(FA("default", Bin("-", X, X), <<LS(<<100>>)>>))>>, LMin)), xcalls |-> [id \in {} |-> 0], ctx |-> ("x" :> VI(4))],
+                         [label |-> "x*0", tp |-> ("main" :> Source(<<PrintS(FA("default", Bin("*", X, LI(0)), <<LS(<<100>>)>>))>>, LMin)), xcalls |-> [id \in {} |-> 0], ctx |-> ("x" :> VI(4))],
+                         [label |-> "0.0", tp |-> ("main" :> Source(<<PrintS(FA("default", X, <<LS(<<100>>)>>))>>, LMin)), xcalls |-> [id \in {} |-> 0], ctx |-> ("x" :> VD(0, 0))]},
+         expect |-> [ok |-> TRUE, out |-> <<>>, noout |-> TRUE, err |-> "", calls |-> [id \in {} |-> 0]]]
 \* several list arguments at once
 MultiMerge == {[fam |-> "list", x |-> VL(l), e |-> FA("merge", X, <<Arr(<<LI(7), LI(8)>>), Arr(<<LI(6)>>)>>)] : l \in IntLists(MaxList)}
               \cup {[fam |-> "list", x |-> VL(l), e |-> FA("merge", X, <<X, Arr(<<>>), Arr(<<LI(6)>>)>>)] : l \in IntLists(MaxList)}
@@ -130,12 +156,12 @@ CaseOf(c) ==
      runs |-> {[label |-> c.fam, tp |-> ("main" :> Source(Prog(c), LMin)), xcalls |-> [id \in {} |-> 0]]},
      expect |-> [ok |-> ref.ok, out |-> ref.out, err |-> ref.err, calls |-> [id \in {} |-> 0]]]
 
-Fams == {"str", "idem", "list", "loopcount", "slice", "default", "map", "num", "dec", "numfmt", "joinsplit"}
+Fams == {"str", "idem", "list", "loopcount", "slice", "default", "map", "num", "dec", "numfmt", "joinsplit", "kinds"}
 Init == cs \in {[part |-> f] : f \in Fams}
-Next == "part" \in DOMAIN cs /\ cs' \in {c \in AllCases : c.fam = cs.part /\ Ref(c).err # "frag"}
+Next == "part" \in DOMAIN cs /\ cs' \in IF cs.part = "kinds" THEN KindCases ELSE {c \in AllCases : c.fam = cs.part /\ Ref(c).err # "frag"}
 Spec == Init /\ [][Next]_cs
 IsCase == "fam" \in DOMAIN cs
-Emit == IsCase => PrintT(ToJson(IF cs.fam = "idem" THEN CaseOfIdem(cs) ELSE CaseOf(cs)))
+Emit == IsCase => PrintT(ToJson(IF cs.fam = "idem" THEN CaseOfIdem(cs) ELSE IF cs.fam = "kinds" THEN KindCaseOf(cs) ELSE CaseOf(cs)))
 
 \* ---- the property's equations, checked on the reference -------------------------------------
 Ap(f, v) == ApplyBuiltin(f, v, <<>>, <<>>).v
